@@ -479,7 +479,7 @@ func checkProperty(rc *runCtx, p, tier string, seed int, verif string, bl Baseli
 			continue
 		}
 		switch be.Kind {
-		case "post", "inv-init", "inv-keep", "lemma", "decreases":
+		case "post", "inv-init", "inv-keep", "lemma", "decreases", "assert":
 			claimed++
 			fn := strings.SplitN(name, "#", 2)[0]
 			why := "obligation-missing: the contract clause can no longer be checked"
